@@ -462,7 +462,46 @@ pub mod pipeline {
         st!(v, "utils::InterleavePopulations", Some(utils::populations::InterleavePopulations::new()));
         st!(v, "utils::DuplicatePopulation", Some(utils::populations::DuplicatePopulation::new()));
         st!(v, "evaluate(Sequential)", Some(mahf::components::evaluation::PopulationEvaluator::<Global>::new()));
+        // swarm operators that move individuals in place
+        st!(v, "swarm::BlackHoleParticlesUpdate", Some(mahf::components::swarm::bh::BlackHoleParticlesUpdate::new()));
+        st!(v, "replacement::EventHorizon", Some(replacement::bh::EventHorizon::new()));
+        st!(v, "swarm::FireflyPositionsUpdate(0.3,1,1)", Some(mahf::components::swarm::fa::FireflyPositionsUpdate::new(0.3, 1.0, 1.0)));
+        st!(v, "swarm::ParticleSwarmInit+ParticleVelocitiesUpdate", mahf::components::swarm::pso::ParticleSwarmInit::new(1.0).ok().and_then(|i| {
+            mahf::components::swarm::pso::ParticleVelocitiesUpdate::new(0.7, 1.2, 1.2, 1.0).ok().map(|u| -> C { mahf::components::Block::new([i, u]) })
+        }));
+        st!(v, "swarm::ParticleSwarmInit+ParticleSwarmUpdate", mahf::components::swarm::pso::ParticleSwarmInit::new(1.0).ok().map(|i| -> C { mahf::components::Block::new([i, mahf::components::swarm::pso::ParticleSwarmUpdate::new()]) }));
+        // mutation rates are state: constructed with one rate, adapted to another after initialisation
+        st!(v, "NormalMutation(0.3,0) rate adapted to 1", Some(Adapted::new(mutation::NormalMutation::new(0.3, 0.0), |st| { st.set_value::<mutation::MutationRate<mutation::NormalMutation>>(1.0); })));
+        st!(v, "UniformMutation(0.5,0) rate adapted to 1", Some(Adapted::new(mutation::UniformMutation::new(0.5, 0.0), |st| { st.set_value::<mutation::MutationRate<mutation::UniformMutation>>(1.0); })));
+        st!(v, "PartialRandomSpread(0) rate adapted to 1", Some(Adapted::new(mutation::PartialRandomSpread::new(0.0), |st| { st.set_value::<mutation::MutationRate<mutation::PartialRandomSpread>>(1.0); })));
+        st!(v, "UniformMutation(0.5,1) rate adapted to 0", Some(Adapted::new(mutation::UniformMutation::new(0.5, 1.0), |st| { st.set_value::<mutation::MutationRate<mutation::UniformMutation>>(0.0); })));
         v
+    }
+
+    /// a component whose state is adapted (as by a parameter-control step) between its initialisation and its execution
+    #[derive(Clone, serde::Serialize)]
+    pub struct Adapted {
+        inner: C,
+        #[serde(skip)]
+        adapt: fn(&mut mahf::State<RealP>),
+    }
+    impl Adapted {
+        pub fn new(inner: C, adapt: fn(&mut mahf::State<RealP>)) -> C {
+            Box::new(Adapted { inner, adapt })
+        }
+    }
+    impl Component<RealP> for Adapted {
+        fn init(&self, p: &RealP, st: &mut mahf::State<RealP>) -> mahf::ExecResult<()> {
+            self.inner.init(p, st)?;
+            (self.adapt)(st);
+            Ok(())
+        }
+        fn require(&self, p: &RealP, req: &mahf::state::StateReq<RealP>) -> mahf::ExecResult<()> {
+            self.inner.require(p, req)
+        }
+        fn execute(&self, p: &RealP, st: &mut mahf::State<RealP>) -> mahf::ExecResult<()> {
+            self.inner.execute(p, st)
+        }
     }
 
     fn sol(k: usize) -> Vec<f64> {
@@ -499,6 +538,10 @@ pub mod pipeline {
             .collect();
         let mut st = state_with::<RealP>(pops);
         st.insert(mahf::state::common::Evaluations(0));
+        // the record of an earlier search phase: a best-so-far individual that is in none of the populations and beats all of them
+        let mut foreign = mahf::state::common::BestIndividual::<RealP>::new();
+        foreign.update(&Individual::new(vec![1.25, 1.25], so(-1.0e9)));
+        st.insert(foreign);
         // 0 Sequential, 1 Parallel, 2 a user evaluator that repairs the solution before assigning f of the repaired one
         match evk {
             1 => st.insert_evaluator(Parallel::<RealP>::new()),
